@@ -104,7 +104,7 @@ func c09Corpus(tier string) []*gen.Expr {
 
 var c09Extra = []string{"F in [5, 1, 3, 1, 4, 2]", `X in ["b", "a", "b", "c"]`, "F not in [2, 2, 1]", `["ab", S matches "a" + "b"]`, `S matches "a" + "b" and "ab" == S`, "Zz + 1", "Zz", "Zq == nil",
 	"PtrOnly()", "PtrOnly() + I", "O.Get() + P.Get()", `{a: 1, b: 2, c: 3}`, `M["zz"]`, `MA["zz"]`, "A[1:2]", "filter(A, {# > 1})", "SA[0:1]", "map(OS, {.Next})", "O?.Next", "AA", "OS[0]",
-	"{(O): 1}", "{(S): I, (P): 2}", "{(PI): 1}", "{(S): 1, (PI): 2}", "PI == PI", "{(OS[0]): S}", "{(I): 1, (F): 2}", "I %\t(I - I)", "A[7] +\t1", "[\"a\tb\", A[9]]", "\tI % (J - 2)", "map(A, {#\t% (I - 1)})"}
+	"{(O): 1}", "{(S): I, (P): 2}", "{(PI): 1}", "{(S): 1, (PI): 2}", "PI == PI", "A2[0:4]", "A2[1:5]", "A2[:3]", "A2[2:]", "len(A2[0:9])", "{(OS[0]): S}", "{(I): 1, (F): 2}", "I %\t(I - I)", "A[7] +\t1", "[\"a\tb\", A[9]]", "\tI % (J - 2)", "map(A, {#\t% (I - 1)})"}
 
 // c09History: explicit enumeration of short HISTORIES of compile operations in one process. The alphabet mixes
 // expr.Compile under several option sets, the configuration-less compile that expr.Eval performs
@@ -123,7 +123,7 @@ func c09HistOps() []c09HistOp {
 	cfgs := []c09Config{}
 	for _, c := range c09Configs() {
 		switch c.name {
-		case "struct", "map", "operators", "map+operators+undef", "shared-option-values+undef", "asint":
+		case "struct", "map", "operators", "map+operators+undef", "shared-option-values+undef", "asint", "constexpr":
 			cfgs = append(cfgs, c)
 		}
 	}
@@ -144,7 +144,7 @@ func c09HistOps() []c09HistOp {
 			}})
 		}
 	}
-	for _, src := range []string{"I + 1", "Zz", "O.N", "I in [1, 2, 3]", `S matches "a"`, "Id(I) + J", "M.a", "map(A, {# + I})"} {
+	for _, src := range []string{"I + 1", "Zz", "O.N", "I in [1, 2, 3]", `S matches "a"`, "Id(I) + J", "M.a", "map(A, {# + I})", "Id(1) + I", `Cat("a", "b") + S`} {
 		src := src
 		for _, c := range cfgs {
 			c := c
@@ -446,11 +446,17 @@ func c09(r *report.Run) {
 
 var logType = reflect.TypeOf((*henv.Log)(nil))
 
+var c09Tail int64
+
 func mk2(e *gen.Expr, v henv.Val) *henv.Env {
 	if e == nil {
 		env := henv.MakeFull(v)
 		x := 5
 		env.PI = &x // a fresh pointer in every (otherwise equal) environment
+		// equal slices with spare capacity and DIFFERENT contents beyond their length
+		t := int(atomic.AddInt64(&c09Tail, 1))
+		backing := []int{2, 0, 90 + t%7, 80 + t%5, 70, 60}
+		env.A2 = backing[:2]
 		return env
 	}
 	return henv.Make(v)
